@@ -166,6 +166,61 @@ Proof.
   split; [apply ambiguousb_sound; vm_compute; reflexivity|]. split; vm_compute; reflexivity.
 Qed.
 
+(** ** The shape of the outputs (proofs/FundDataProofs.v).  The data part of the estimated size is the sum of the
+    script lengths of ALL data outputs, wherever they stand: each one contributes its full length, the order of the
+    outputs plays no part; the deficit of a transaction is the quoted fee of that split, and this is what the supplier
+    is given at EVERY call - the data part being that of the starting transaction's outputs. *)
+From GoBT Require Import proofs.FundDataProofs.
+From Coq Require Import Permutation.
+Theorem C12_every_data_output_counts : forall a o b,
+  data_sum (a ++ o :: b) = (if is_data (out_script o) then lenN (out_script o) else 0) + data_sum (a ++ b).
+Proof. exact data_sum_middle. Qed.
+Print Assumptions C12_every_data_output_counts.
+
+Theorem C12_data_part_order_independent : forall a b, Permutation a b -> data_sum a = data_sum b.
+Proof. exact data_sum_perm. Qed.
+Print Assumptions C12_data_part_order_independent.
+
+Theorem C12_deficit_data_outputs : forall t q d, wf_tx t -> ~ ambiguous t ->
+  estimate_deficit t q = FOk d ->
+  exists te f,
+    estimated_final_tx t = FOk te /\ tx_outs te = tx_outs t /\
+    fees_paid (mkSize (tx_size te) (tx_size te - data_sum (tx_outs t)) (data_sum (tx_outs t))) q = FOk f /\
+    d = deficit_of t f.
+Proof. exact deficit_data_outputs. Qed.
+Print Assumptions C12_deficit_data_outputs.
+
+Theorem C12_fund_calls_data_outputs : forall t q hist,
+  wf_tx t -> ~ ambiguous t -> forallb wf_responseb hist = true ->
+  let r := fund t q hist in
+  forall k, (k < length (f_calls r))%nat ->
+    N.of_nat (length (tx_ins (inter t hist k))) < two64 ->
+    exists te f,
+      estimated_final_tx (inter t hist k) = FOk te /\ tx_outs te = tx_outs t /\
+      fees_paid (mkSize (tx_size te) (tx_size te - data_sum (tx_outs t)) (data_sum (tx_outs t))) q = FOk f /\
+      nth k (f_calls r) 0 = deficit_of (inter t hist k) f.
+Proof. exact fund_calls_data_outputs. Qed.
+Print Assumptions C12_fund_calls_data_outputs.
+
+(** non-vacuity: a payment and TWO data outputs (103 and 104 script bytes, one of each form), 1 sat/byte standard and
+    1/10 sat/byte data: 269 bytes, 207 of them data: the supplier is asked for 1000 + 62 + 20; charging only the first
+    data output at the data rate would ask for 1000 + 166 + 10 *)
+Definition ex_tx2 : tx :=
+  mkTx 1 [] [mkOutput 1000 ex_p2pkh; mkOutput 0 ([x6a; x4c; x64] ++ repeat_byte 100 xaa);
+             mkOutput 0 ([x00; x6a; x4c; x64] ++ repeat_byte 100 xbb)] 0.
+Definition ex_quote2 : quote := mkQuote (Some (mkRate 1 1)) (Some (mkRate 1 10)).
+Example C12_two_data_outputs_example :
+  wf_tx ex_tx2 /\ ~ ambiguous ex_tx2 /\ tx_size ex_tx2 = 269 /\ data_sum (tx_outs ex_tx2) = 207 /\
+  f_calls (fund ex_tx2 ex_quote2 [NoUTXO]) = [1082] /\
+  f_calls (fund ex_tx2 ex_quote2 [Batch [ex_u 1229]; NoUTXO]) = [1082; 1] /\
+  f_calls (fund ex_tx2 ex_quote2 [Batch [ex_u 1230]; NoUTXO]) = [1082] /\
+  f_res (fund ex_tx2 ex_quote2 [Batch [ex_u 1230]; NoUTXO]) = FOk tt.
+Proof.
+  split; [apply wf_txb_sound; vm_compute; reflexivity|]. split; [apply ambiguousb_sound; vm_compute; reflexivity|].
+  split; [vm_compute; reflexivity|]. split; [vm_compute; reflexivity|]. split; [vm_compute; reflexivity|].
+  split; [vm_compute; reflexivity|]. split; vm_compute; reflexivity.
+Qed.
+
 (** ** However the starting transaction was obtained.  The Go object holds an input's unlocking script behind a
     pointer - nil after From / FromUTXOs / a struct literal, present with length 0 after NewTxFromBytes /
     NewTxFromString / Clone / JSON decoding of an unsigned draft or after clearing a signature.  model/FundObtained.v
